@@ -158,6 +158,9 @@ def run_case(case):
                 tmax += direction * abs(dt0)        # built by repeated addition: the FP coincidence the property names
         else:
             tmax = t0 + direction * nst * abs(dt0)
+        if tmax == t0:
+            counters['degenerate_interval_skipped'] = counters.get('degenerate_interval_skipped', 0) + 1     # the interval rounds to nothing at this |t|: no direction to speak of
+            continue
         if kind == 'contract':
             if r.random() < 0.3 and integ != 'whfast512':
                 sim.dt = -sim.dt          # user's dt points the wrong way: integrate must flip it
@@ -213,7 +216,7 @@ def run_case(case):
                 n = len(ts) - 1
                 span = abs(tmax - t0)
                 ratio = span / abs(dt0)
-                if abs(ratio - round(ratio)) <= 8 * EPS * max(ratio, 1) * max(1.0, abs(t0) / span if span else 1) + 4 * EPS * (abs(t0) + abs(tmax)) / abs(dt0):
+                if abs(ratio - round(ratio)) <= 8 * EPS * max(ratio, 1) * max(1.0, abs(t0) / span if span else 1) + (ratio + 4) * EPS * (abs(t0) + abs(tmax)) / abs(dt0):      # t is accumulated step by step: one rounding of size eps |t| per step
                     counters['step_count_ambiguous'] += 1
                 else:
                     counters['step_count_checked'] += 1
